@@ -144,6 +144,10 @@ def oracle(ctx):
             ops.append(('kube', f'[Kube]\nYaml={r}\nSetWorkingDirectory=yaml\n'))
         else:
             ops.append(('build', f'[Build]\nImageTag=t\nFile={r}\nSetWorkingDirectory=file\n'))
+    # the base of resolution is the unit file's directory whatever else the unit says: a third of the units (not those whose working
+    # directory is the thing derived) also choose a [Service] WorkingDirectory= of their own
+    ops = [(ty, text + (rnd.choice(['[Service]\nWorkingDirectory=/srv/app\n', '[Service]\nWorkingDirectory=%h/app\n', '[Service]\nWorkingDirectory=rel/dir\n'])
+                        if not c[2].startswith('wd-') and rnd.random() < 0.33 else '')) for c, (ty, text) in zip(cases, ops)]
     lines = [f'convert\t0\t0\t{hx(c[0] + "/u." + ty)}\t{hx(text)}' for c, (ty, text) in zip(cases, ops)]
     io = ctx.impl(lines)
     for (unitdir, r, kind), line, a in zip(cases, lines, io):
